@@ -66,8 +66,8 @@ Definition ex_m0 : @mab Qc Z nat :=
   {| m_imp := ICf (cf_init QcNum KUcb 1%Qc None [3; 1; 2]%Z); m_fitted := false; m_rng := 0%nat |}.
 Definition ex_orc : @oracle Qc Z := mkOracle [] [] [] (fun _ _ => 0%nat) [].
 Definition ex_ops : list (@op Qc Z) :=
-  [Fit [3; 1; 1]%Z [1; 0; 1]%Qc None ex_orc; RemoveArm 1%Z; AddArm 7%Z None; AddArm 1%Z None;
-   PartialFit [7]%Z [1]%Qc None ex_orc].
+  [Fit [3; 1; 1]%Z [1%Qc; 0%Qc; 1%Qc] None ex_orc; RemoveArm 1%Z; AddArm 7%Z None; AddArm 1%Z None;
+   PartialFit [7]%Z [1%Qc] None ex_orc].
 Example C08_hypotheses_satisfiable :
   rng_lengths_ok ToyRng /\ is_cf ex_m0 /\ mab_inv QcNum ex_m0 /\
   m_arms (state_after QcNum Z.eqb ToyRng ex_m0 ex_ops) = [3; 2; 7; 1]%Z.
